@@ -1508,6 +1508,51 @@ def run_tolinen_lifted_sharding(ctx, i, rng):
     ctx.check(tuple(spec_after) == ('layers', 'in', 'out'), 'tolinen.lifted_sharding:axis_name_not_added', lambda: dict(case=desc, after='apply'))
 
 
+def run_tolinen_falsy_meta(ctx, i, rng):
+  """ToLinen around an NNX module whose Variables carry metadata with FALSY values (trainable=False, group=0, sharding=None, an empty
+  tuple): the metadata is part of the Variable like any other and survives the conversion - the module rebuilt at apply sees it, and
+  the Linen variable tree still holds it."""
+  import jax
+  import jax.numpy as jnp
+  import flax.linen as nn
+  from flax import nnx
+  from flax.nnx import bridge
+  meta_kw = [dict(trainable=False), dict(group=0), dict(trainable=False, group=0), dict(note=''), dict(sharding=None, trainable=False),
+             dict(trainable=True)][i % 6]
+  d = 2 + (i // 6) % 2
+  desc = dict(metadata=repr(meta_kw), d=d)
+  with ctx.case('tolinen.falsy_meta', i, desc, nontrivial='trainable=True' not in repr(meta_kw)):
+    class FM(nnx.Module):
+      def __init__(self, d, rngs):
+        self.w = nnx.Param(jnp.arange(1.0, d + 1.0), **meta_kw)
+
+      def __call__(self, x):
+        w = self.w.value
+        if not getattr(self.w, 'trainable', True):
+          w = jax.lax.stop_gradient(w)                     # a frozen weight
+        return x * w + float(getattr(self.w, 'group', 7)) + (0.5 if hasattr(self.w, 'note') else 0.0)
+
+    x = jnp.asarray(np.random.default_rng(i).uniform(0.5, 1.5, (2, d)).astype(np.float32))
+    ref = FM(d, nnx.Rngs(0))
+    lin = bridge.to_linen(FM, d)
+    y0, V = lin.init_with_output(jax.random.key(0), x)
+    ctx.op('ToLinen(Variable with falsy metadata)')
+    ctx.check(close(y0, ref(x)), 'tolinen.falsy_meta:init_output', lambda: dict(case=desc))
+    y1 = lin.apply(V, x)
+    ctx.check(close(y1, ref(x)), 'tolinen.falsy_meta:apply_output', lambda: dict(case=desc, got=np.asarray(y1).tolist(), want=np.asarray(ref(x)).tolist()))
+    # gradient w.r.t. the weight through the Linen wrapper == through the NNX module
+    g_l = jax.grad(lambda vv: jnp.sum(lin.apply(vv, x)))(V)
+    g_w = [np.asarray(a) for a in jax.tree_util.tree_leaves({c: t for c, t in g_l.items() if c != 'nnx'})]
+    g_ref = nnx.grad(lambda m: jnp.sum(m(x)))(ref)
+    g_r = [np.asarray(a) for a in jax.tree_util.tree_leaves(g_ref)]
+    ctx.check(len(g_w) == len(g_r) == 1 and close(g_w[0], g_r[0]), 'tolinen.falsy_meta:gradient', lambda: dict(case=desc, linen=[a.tolist() for a in g_w], nnx=[a.tolist() for a in g_r]))
+    # the Linen tree still carries the metadata
+    leaf = [t for c, t in V.items() if c != 'nnx'][0]['w']
+    md = getattr(leaf, 'metadata', None)
+    ctx.check(md is not None and all(k in md and md[k] == v for k, v in meta_kw.items()), 'tolinen.falsy_meta:metadata_lost',
+              lambda: dict(case=desc, leaf_type=type(leaf).__name__, metadata=repr(md)[:200]))
+
+
 def run_tonnx_custom_box(ctx, i, rng):
   """A Linen variable boxed in a user-defined AxisMetadata class (public ABC; no from_nnx_metadata): the wrapper keeps the box's own
   fields as Variable metadata and every call returns what Linen apply returns."""
@@ -1635,6 +1680,8 @@ def run(ctx):
     run_tolinen_reused(ctx, i, ctx.rng('tolinen.reused', i))
   for i in ctx.indices(4 if ctx.tier == 'quick' else 8, 'tolinen.lifted_sharding'):
     run_tolinen_lifted_sharding(ctx, i, ctx.rng('tolinen.lifted_sharding', i))
+  for i in ctx.indices(12 if ctx.tier == 'quick' else 36, 'tolinen.falsy_meta'):
+    run_tolinen_falsy_meta(ctx, i, ctx.rng('tolinen.falsy_meta', i))
   for i in ctx.indices(30 if ctx.tier == 'quick' else 90, 'tolinen.hooked'):
     run_tolinen_hooked(ctx, i, ctx.rng('tolinen.hooked', i))
   for i in ctx.indices(24 if ctx.tier == 'quick' else 96, 'tonnx.in_parent'):
